@@ -10,7 +10,7 @@ EV=$(mktemp -d)
 for i in 01 02 03 04 05 06 07 08 09 10 11 12 13 14 15 16 17 18 19 20; do
   ( PMV_EVIDENCE_DIR=$EV /verif/check C$i --tier quick --no-selftest > $EV/C$i.log 2>&1; echo "C$i exit=$?" >> $EV/exits ) &
 done; wait
-git -C /repo checkout -- .
+git -C /repo checkout -- . ; git -C /repo clean -fdq -- pmutt
 sort $EV/exits | grep -v "exit=0" | while read c e; do echo "$c $e"; grep -a "rule=\|ANALYSIS-ERROR" $EV/$c.log | head -4 | cut -c1-330; done
 echo "nonzero: $(grep -vc 'exit=0' $EV/exits)"
 rm -rf $EV
